@@ -153,9 +153,8 @@ def unknown_options() -> list[dict]:
 def new_gateway(version: str | None = None, *, metric: bool = True,
                 persistence_file: str | None = None) -> tuple[Gateway, ScriptedTransport]:
     transport = ScriptedTransport()
-    gateway = Gateway(transport, Config(metric=metric, persistence_file=persistence_file))
-    for name, value in CONFIG_EXTRA.items():
-        setattr(gateway.config, name, value)
+    # unknown options are given to the Config constructor (a Gateway may read them while it is being built)
+    gateway = Gateway(transport, Config(metric=metric, persistence_file=persistence_file, **CONFIG_EXTRA))
     if version is not None:
         gateway.protocol_version = version
     return gateway, transport
@@ -231,7 +230,13 @@ class Stepper:
         try:
             message = await self._iter.__anext__()
         except ScriptEnd:
-            raise
+            # the line was consumed without a yield and without an error (filtered, swallowed): an outcome of its own
+            try:
+                await self._iter.aclose()
+            except Exception:  # noqa: BLE001
+                pass
+            self._iter = None
+            return "dropped", None
         except Exception as exc:  # noqa: BLE001  observation handed to the oracle
             try:
                 await self._iter.aclose()
